@@ -81,6 +81,24 @@ func checkSpelling(c *h.Ctx, ap *gen.Path, txt string, clause string) bool {
 		return false
 	}
 	c.Held(clause)
+	// what Parse returns belongs to the caller: decoding another path into it
+	// (a reused variable) changes that Path and nothing else - the same text
+	// parsed again is the same path again
+	if c03Seq%5 == 1 {
+		other := `strict $.c03."reused"[0 to last] ? (@ > 16)`
+		if err := p.UnmarshalText([]byte(other)); err == nil {
+			p2, err2, pan2 := h.ParseSafe(txt)
+			if pan2 != "" || err2 != nil {
+				c.Violate("accept", h.F("kind", "after-reuse"), fmt.Sprintf("the text parsed before; parsed again after its Path was reused for another path: %v %s", err2, pan2), cs)
+				return false
+			}
+			if got2 := gen.FromAST(p2.AST).Sexp(); got2 != want {
+				c.Violate(clause, h.F("kind", "after-reuse"), fmt.Sprintf("parsed again after the Path returned by the first Parse was reused (UnmarshalText of another path): tree %s; intended %s", got2, want), cs)
+				return false
+			}
+			p = p2
+		}
+	}
 	if p.IsPredicate() != ap.Pred || (p.PgIndexOperator() == "@@") != ap.Pred {
 		c.Violate("ispredicate", h.F("want", fmt.Sprint(ap.Pred)), fmt.Sprintf("IsPredicate=%v PgIndexOperator=%s but the top level is predicate=%v", p.IsPredicate(), p.PgIndexOperator(), ap.Pred), cs)
 	} else {
